@@ -170,7 +170,26 @@ static void pip_scenarios() {
   }
 }
 
+
+// MIP_Problem::add_constraint at every fill level of input_cs (trace mode: compared with the Coq program add_constraint_helper at every k)
+static void mip_add_trace_scenarios() {
+#ifdef PPL_GMP_INTEGERS
+  struct MSt { MIP_Problem* p; Constraint* c; MSt() : p(0), c(0) {} };
+  for (int fill = 0; fill <= 13; ++fill) {
+    MSt* st = new MSt;
+    auto mkp = [fill]() { MIP_Problem* p = new MIP_Problem(3); for (int i = 0; i < fill; ++i) p->add_constraint(Variable(i % 3) + (i + 1) * Variable((i + 1) % 3) <= 10 + i); return p; };
+    LScn* s = lscn("mip_add_" + itos(fill), [st, mkp]() { st->p = mkp(); st->c = new Constraint(Variable(0) - 2 * Variable(2) >= -7); }, [st]() { st->p->add_constraint(*st->c); }, [st]() { delete st->p; delete st->c; st->p = 0; st->c = 0; },
+                   [st]() { return st->p->OK(); }, [st]() { MIP_Problem z(*st->p); (void) z.solve(); st->p->add_constraint(Variable(1) <= 40); (void) st->p->is_satisfiable(); return st->p->OK() && z.OK(); });
+    s->container = true;
+    { MIP_Problem* p = mkp(); std::ostringstream o;
+      o << "mip_add size=" << p->input_cs.size() << " cap=" << p->input_cs.capacity() << " newcap=" << compute_capacity(p->input_cs.size() + 1, p->input_cs.max_size()) << " csize=" << sizeof(Constraint);
+      s->params = o.str(); delete p; }
+  }
+#endif
+}
+
 static void more_scenarios() {
+  mip_add_trace_scenarios();
 #ifdef PPL_GMP_INTEGERS
   common_domain_scenarios<BDS>("BD_Shape", false);
   common_domain_scenarios<OCT>("Octagonal_Shape", false);
